@@ -10,4 +10,4 @@ for l in open(sys.argv[1]):
     if m and cur:
         out[cur][1].setdefault(m.group(1), []).append(m.group(3))
 for k, (st, rs) in out.items():
-    print("%-40s %-9s %s" % (k.rsplit("/", 1)[-1], st, "; ".join("%s x%d (%s)" % (r, len(i), i[0][:40]) for r, i in sorted(rs.items()))))
+    print("%-40s %-9s %s" % ("/".join(k.split("/")[-3:]) if k.endswith("patch.diff") else k.rsplit("/", 1)[-1], st, "; ".join("%s x%d (%s)" % (r, len(i), i[0][:40]) for r, i in sorted(rs.items()))))
